@@ -127,6 +127,17 @@ ALIGNS = {"post preamble": sp.AlignmentMode.POST_PREAMBLE, "parallel start": sp.
 
 
 def build_block(desc, b, built, shared=None):
+    """With `shared`, a node that carries an "obj" key is built once and the same object is reused."""
+    key = b.get("obj")
+    if shared is not None and key is not None and ("block", key) in shared:
+        return shared[("block", key)]
+    blk = _build_block(desc, b, built, shared)
+    if shared is not None and key is not None:
+        shared[("block", key)] = blk
+    return blk
+
+
+def _build_block(desc, b, built, shared=None):
     cs = [build_constraint(desc, c, built, shared) for c in b.get("cs", [])]
     k = b["k"]
     F = lambda ids: [built.factors[i] for i in ids]
